@@ -1,4 +1,5 @@
 import BstreamVerif.Model.HubBurst
+import BstreamVerif.Facts
 import BstreamVerif.Props.C02
 /-!
 # C09 — hub snapshots are the canonical chain; readiness and the servable window are true
@@ -269,5 +270,16 @@ theorem withForks_spec (s : FState) (n : Nat) (hl : s.db.hasLIB = true) :
     · rintro ⟨e, he, rfl, hn⟩
       exact ⟨e, by rw [Props.C02.mem_sortById]; simp [he, hn], rfl⟩
   · rw [h2]; simp [length_sortById]
+
+/-- **tie by translation**: `substractAndRoundDownBlocks` of hub/hub.go (the start block of the one-block bootstrap),
+    translated from the source on every run, is the model's `substractAndRoundDown` — the guarded subtraction of the Go
+    code and the truncated subtraction of the model agree -/
+theorem substractAndRoundDown_translated (blknum sub fsb : Nat) :
+    BstreamVerif.Facts.Gen.substractAndRoundDownBlocks blknum sub fsb = substractAndRoundDown fsb blknum sub := by
+  unfold BstreamVerif.Facts.Gen.substractAndRoundDownBlocks substractAndRoundDown
+  by_cases h : blknum < sub
+  · have : blknum - sub = 0 := by omega
+    simp [h, this]
+  · simp [h]
 
 end BstreamVerif.Props.C09
